@@ -2,8 +2,9 @@
    what the implementation returned (full-span reads return the input entries in input order, the
    item count is the number of entries, the autoSql comes back verbatim, the chromosome table lists
    the chromosomes that had data with the supplied sizes). *)
-From BT Require Import Base.Util Base.Sexp Base.Float Generated.Consts Model.RTree Model.BBIFile Model.BigWigWrite Model.BBIRead
+From BT Require Import Base.Util Base.Sexp Base.LE Base.Float Generated.Consts Model.RTree Model.BBIFile Model.BigWigWrite Model.BBIRead
   Model.BigBedWrite Model.BBIReadBed Model.EntryBBI Model.EntryBed.
+From BT Require Import Model.CachedRead Model.BigWigWriteZ Model.BigBedWriteZ Spec.FormatDecode Spec.Inflate.
 Local Open Scope N_scope.
 
 Definition full_span_ok (sizes : list (name * N)) (inp : list bitem) (cn : name) (s e : N) (a : sexp) : bool :=
@@ -37,9 +38,81 @@ Definition c02_oracle (c out : sexp) : sexp :=
                    else true)
                 (combine qs ans)).
 
+(* ---- entry 2: the REPLAY COMPRESSOR comparison for compressed files (case flag bit 2) ----
+   The implementation's output carries the bytes of the real (libdeflate-compressed) file as a 4th element.
+   Every block range of that file (main index leaves and the leaves of every zoom index, found by the independent
+   decoder's pass A, Spec/FormatDecode.block_ranges) is inflated with Spec/Inflate.zlib_decode; the table
+   {inflated block -> the real compressed block} instantiates the compressor parameter of Model/BigBedWriteZ.v, and
+   the model's file must then be the real file, byte for byte: every raw section the model builds is a block of the
+   real file after inflation (see [replay_cmp] for sections missing from the table), at the model's offset, with the model's index, zoom selection on the compressed sizes, and uncompress_buf_size.
+   Then the READER model answers the case's queries on those bytes with Spec/Inflate.zlib_decode as its decompressor
+   (the compressed path of block_data: uncompress_buf_size > 0), to be compared with the real reader's answers.
+   Answer: (1 blocks ubuf answers) equal | (0 2 ...) a block is no zlib stream | (0 3 first-difference model-length
+   real-length) | (0 4) the model refuses | (0 1) pass A refuses the real file. *)
+Definition zinfl (b : list N) : list N := match zlib_decode b with Some d => d | None => [] end.
+(* EntryBed.bed_answer with the decompressor *)
+Definition bed_answer_z (bs : list N) (i : info) (q : sexp) : sexp :=
+  let k := getN (nthS 0 q) in
+  let c := getBytes (nthS 1 q) in
+  let s := getN (nthS 2 q) in
+  let e := getN (nthS 3 q) in
+  if k =? 0 then sRes (sList sEntry) (bb_interval zinfl bs i c s e)
+  else if k =? 2 then sRes (sList sZrec) (zoom_interval zinfl bs i c s e (getN (nthS 4 q)))
+  else if k =? 3 then sRes sSummary (read_summary bs i)
+  else if k =? 4 then sRes sInfo (Ok i)
+  else if k =? 5 then sRes (sOpt sBytes) (bb_autosql bs i)
+  else if k =? 6 then sRes sN (bb_item_count bs i)
+  else if k =? 7 then sList (sRes (sList sEntry)) (c_bb_history zinfl bs i cache0 (getList get_q3 (nthS 1 q)))
+  else sRes sInfoLite (Ok i).
+(* A section that is no block of the real file is "compressed" to [big] zero bytes, [big] = the length of the real
+   file: in the single pass with automatic zoom selection every candidate level is computed and compressed but
+   write_zooms leaves out those whose compressed size exceeds half the data size (or whose section count does not
+   drop); the compressed size of a level that was never written cannot be seen in the file, so the replay
+   compressor makes such a level too big to be kept.  (Consequence: a level the real code leaves out by the size rule
+   is left out by the replayed model as well - that decision is not checked by this comparison; a level the real code
+   KEEPS must be kept by the model with its true compressed sizes, and data sections are always written.) *)
+Definition replay_cmp (table : list (list N * list N)) (big : N) (b : list N) : list N :=
+  match find (fun e => bytes_eqb (fst e) b) table with Some e => snd e | None => repeatN 0 (N.to_nat big) end.
+Fixpoint first_diff (i : N) (a b : list N) : option N :=
+  match a, b with
+  | [], [] => None
+  | x :: r, y :: s => if x =? y then first_diff (i + 1) r s else Some i
+  | _, _ => Some i
+  end.
+Definition c02_replay (c out : sexp) : sexp :=
+  let real := getBytes (nthS 3 out) in
+  match block_ranges real with
+  | None => L [A 0%Z; A 1%Z]
+  | Some (ubuf, rs) =>
+      let blocks := map (fun r => match slice real (fst r) (N.to_nat (snd r)) with
+                                  | Some blk => (zlib_decode blk, blk) | None => (None, []) end) rs in
+      if existsb (fun p => match fst p with None => true | Some _ => false end) blocks
+      then L [A 0%Z; A 2%Z; sN (Nlen rs)]
+      else
+        let table := map (fun p => (match fst p with Some d => d | None => [] end, snd p)) blocks in
+        let kind := getN (nthS 0 c) in
+        let o := get_opts (nthS 1 c) in
+        let sizes := get_sizes (nthS 2 c) in
+        let w := if kind =? 0 then bb_write_z (replay_cmp table (Nlen real)) ieee o sizes (bed_autosql c) (bed_input c)
+                 else bb_write_multipass_z (replay_cmp table (Nlen real)) ieee o sizes (bed_autosql c) (bed_input c) in
+        match w with
+        | Ok bs => match first_diff 0 bs real with
+                   | None =>
+                       L [A 1%Z; sN (Nlen rs); sN ubuf;
+                          match read_info bs with
+                          | Ok i => sList (bed_answer_z bs i) (getL (nthS 4 c))
+                          | r => sRes (fun _ => L []) r
+                          end]
+                   | Some d => L [A 0%Z; A 3%Z; sN d; sN (Nlen bs); sN (Nlen real)]
+                   end
+        | _ => L [A 0%Z; A 4%Z]
+        end
+  end.
+
 Definition dispatch (k : Z) (arg : sexp) : sexp :=
   match k with
   | 0 => bed_model arg
   | 1 => c02_oracle (nthS 0 arg) (nthS 1 arg)
+  | 2 => c02_replay (nthS 0 arg) (nthS 1 arg)
   | _ => L [A (-1)%Z]
   end%Z.
